@@ -3,7 +3,10 @@
 import glob, json, os, re
 V = os.path.dirname(os.path.dirname(os.path.abspath(__file__)))
 rows = []
+DET = json.load(open(f"{V}/seeded/detection.json")) if os.path.exists(f"{V}/seeded/detection.json") else {}
 for d in sorted(glob.glob(f"{V}/seeded/*/")):
+    if not os.path.exists(d + "meta.json"):
+        continue
     m = json.load(open(d + "meta.json"))
     notes = [l.strip("-# ").strip() for l in m.get("needs_to_manifest", "").splitlines() if l.strip()]
     what = next((l for l in notes if l.lower().startswith(("change", "what"))), notes[1] if len(notes) > 1 else (notes[0] if notes else ""))
@@ -21,6 +24,15 @@ for d in sorted(glob.glob(f"{V}/seeded/*/")):
             D.add(re.sub(r"\.(post|safe|inv|model|pre|raises).*", "", t)[:60].rstrip("_"))
         else:
             B.add(tag)
+    dd = DET.get(m["id"])
+    if dd:  # latest classification run (all violations, not only the first lines kept in meta.json)
+        D = set(re.sub(r"_+$", "", re.sub(r"\.(post|safe|inv|model|pre|raises|cross).*", "", c))[:60] for c in dd["deductive_clauses"])
+        if dd["deductive_violations"] and not D:
+            D = {"(deductive)"}
+        if not dd["bounded_violations"]:
+            B = set()
+        elif not B:
+            B = {"bounded run"}
     by = []
     if D:
         by.append("D: " + ", ".join(sorted(D))[:150])
